@@ -12,8 +12,9 @@ from fimverif.engines.refmodel import RefStore, ModelRaise, UNSPEC
 ID = "C05"
 RULE = ("Operation sequences over a small alphabet (graphs g,h; node ids a,b,c; classes X,Y; relations r,s; property "
         "names p,q,Name,Type + identity names; values 1,'v','w'), executed in lock-step on the shared-store backend, "
-        "the per-graph backend and an executable reference model: exhaustively over a 50-operation reduced alphabet "
-        "from an empty and a populated base state (quick: depth<=2 complete and every 9th depth-3 sequence; thorough: "
+        "the per-graph backend and an executable reference model: exhaustively over a 53-operation reduced alphabet "
+        "from an empty, a populated and a 'twins' base state (both graphs hold the same two linked nodes) (quick: "
+        "depth<=2 complete and every 9th depth-3 sequence; thorough: "
         "depth<=3 complete), and Hypothesis-generated sequences of up to 40 operations over the full alphabet. After "
         "every step the call's result / raised-or-not and the canonical content of both graphs (and merge-created "
         "cross-graph edges) are compared three ways. Non-trivial: the sequence contains a mutation followed by an "
@@ -22,7 +23,7 @@ ASSUMPTIONS = ["reference model = my reading of the ABCPropertyGraph docstrings 
                "self-links and updates of NodeID/GraphID are outside the generated alphabet",
                "merge policies 'overwrite'/'combine' for a property missing on the other node are unspecified",
                "raised/not-raised is compared, not exception classes"]
-BUDGET = {"quick": 4000, "thorough": 120000}
+BUDGET = {"quick": 4000, "thorough": 60000}
 ENUM_EXHAUSTIVE = False   # quick samples depth 3; see EXHAUSTIVE_NOTE
 EXHAUSTIVE_NOTE = "depth<=2 over the reduced alphabet is complete in quick; depth<=3 complete in thorough"
 MIN_LABEL_FRACTION = {"nontrivial": 0.5, "has-error-path": 0.3}
@@ -49,6 +50,20 @@ BASE_POPULATED = [
     ["add_link", "h", "a", "s", "c", None],
 ]
 
+# both graphs hold nodes a and b joined by a link (different relation and properties): merging b and then a makes
+# the second merge meet a neighbour both nodes are linked to ("common relationships are merged")
+BASE_TWINS = [
+    ["add_node", "g", "a", "X", {"p": 1, "Name": "v"}],
+    ["add_node", "g", "b", "Y", {"Type": "v"}],
+    ["add_link", "g", "a", "r", "b", {"p": "v"}],
+    ["add_node", "h", "a", "X", {"p": "w", "q": 1}],
+    ["add_node", "h", "b", "Y", {"Name": "v"}],
+    ["add_link", "h", "a", "s", "b", {"q": "w"}],
+    ["add_node", "h", "c", "Y", None],
+    ["add_link", "h", "b", "s", "c", None],
+]
+BASES = {"populated": BASE_POPULATED, "twins": BASE_TWINS}
+
 REDUCED = [
     ["add_node", "g", "a", "X", None], ["add_node", "g", "a", "Y", None], ["add_node", "g", "c", "X", {"p": 1}],
     ["add_node", "h", "a", "X", {"p": "v"}],
@@ -70,7 +85,7 @@ REDUCED = [
     ["get_node", "g", "a"], ["get_link", "g", "a", "b"], ["list_ids", "g"], ["by_class", "g", "X"],
     ["by_class_type", "g", "Y", "v"], ["node_exists", "g", "a", "X"], ["node_exists", "g", "a", "Y"],
     ["unique", "g", "X", "v"], ["graph_exists", "g"], ["matching", "g", "h"],
-    ["merge", "g", "a", "h", None], ["merge", "g", "a", "h", {"p": "combine"}],
+    ["merge", "g", "a", "h", None], ["merge", "g", "b", "h", None], ["merge", "g", "a", "h", {"p": "combine"}],
     ["merge", "g", "a", "h", {"p": "overwrite", "Name": "discard"}],
     ["delete_graph", "g"], ["delete_graph", "h"], ["get_node", "h", "a"], ["get_link", "h", "a", "c"],
     ["list_ids", "h"],
@@ -79,7 +94,7 @@ REDUCED = [
 
 def enumerate_cases(tier):
     k = 0
-    for base in ("populated", "empty"):
+    for base in ("populated", "twins", "empty"):
         for depth in (1, 2, 3):
             for seq in itertools.product(range(len(REDUCED)), repeat=depth):
                 k += 1
@@ -165,7 +180,7 @@ def _op(draw):
 
 
 def strategy(tier):
-    return st.fixed_dictionaries({"base": st.sampled_from(["empty", "populated", "populated"]),
+    return st.fixed_dictionaries({"base": st.sampled_from(["empty", "populated", "populated", "twins"]),
                                   "ops": st.lists(_op(), min_size=1, max_size=40 if tier == "thorough" else 25)})
 
 
@@ -313,8 +328,8 @@ def run_case(case):
         imp = store.make_importer(fl)
         systems[fl] = {"imp": imp, "h": {g: store.graph_handle(imp, g) for g in GRAPHS}}
     M = RefStore()
-    if case["base"] == "populated":
-        for op in BASE_POPULATED:
+    if case["base"] in BASES:
+        for op in BASES[case["base"]]:
             for fl in systems:
                 _real(systems[fl]["h"], op)
             _model(M, op)
